@@ -164,6 +164,70 @@ def condEval (want : Status) (v : Option Validation) : Bool :=
   | none => false
   | some v => decide (want = v.status)
 
+/-! ### validation conditions inside a policy chain -/
+
+/-- Path.GetAsSeqList: the ASes of AS_SEQUENCE segments, a 0 for every other segment -/
+def asSeqList : List Seg → List Nat
+  | [] => []
+  | s :: rest => if s.typ = 2 then s.as ++ asSeqList rest else 0 :: asSeqList rest
+
+/-- Path.PrependAsn: `rep` copies of `asn` in front, merged into the first segment when it has
+    the wanted type (AS_SEQUENCE, or AS_CONFED_SEQUENCE toward a confederation member) up to 255
+    ASes, the rest in a new leading segment -/
+def prependAsn (segs : List Seg) (asn rep : Nat) (confed : Bool) : List Seg :=
+  let ty := if confed then 3 else 2
+  match segs with
+  | s :: rest =>
+    if s.typ = ty then
+      let r := if rep + s.as.length > 255 then 255 - s.as.length else rep
+      let first : Seg := ⟨ty, List.replicate r asn ++ s.as⟩
+      if rep - r > 0 then ⟨ty, List.replicate (rep - r) asn⟩ :: first :: rest else first :: rest
+    else if rep > 0 then ⟨ty, List.replicate rep asn⟩ :: segs else segs
+  | [] => if rep > 0 then [⟨ty, List.replicate rep asn⟩] else []
+
+/-- one policy statement as far as origin validation is concerned: an optional rpki condition,
+    an optional AS_PATH prepend (`prep` 1 = fixed `asn`, 2 = "last-as"), a disposition
+    (0 none, 1 accept, 2 reject).  Actions on communities, MED, LOCAL_PREF, next hop and ORIGIN
+    do not touch anything Validate reads and are not represented. -/
+structure Stmt where
+  cond : Option Status
+  prep : Nat
+  asn  : Nat
+  rep  : Nat
+  disp : Nat
+deriving Repr, DecidableEq, Inhabited
+
+/-- AsPathPrependAction.Apply -/
+def Stmt.modify (s : Stmt) (confed : Bool) (segs : List Seg) : List Seg :=
+  if s.prep = 1 then prependAsn segs s.asn s.rep confed
+  else if s.prep = 2 then
+    match asSeqList segs with
+    | [] => segs
+    | a :: _ => if a = 0 then segs else prependAsn segs a s.rep confed
+  else segs
+
+/-- Statement.Evaluate restricted to the rpki condition, on the route as it is NOW -/
+def Stmt.hit (s : Stmt) (t : Table) (q : Prefix) (localAS : Nat) (segs : List Seg) : Bool :=
+  match s.cond with
+  | none => true
+  | some w => condEval w (some (validate t q localAS segs))
+
+/-- RoutingPolicy.ApplyPolicy / Policy.Apply / Statement.Apply over the statements of all
+    assigned policies in order: which statements matched, the AS_PATH at the end, the
+    disposition that ended the chain (0 = none did) -/
+def chainEval (t : Table) (q : Prefix) (localAS : Nat) (confed : Bool) :
+    List Seg → List Stmt → List Bool × List Seg × Nat
+  | segs, [] => ([], segs, 0)
+  | segs, s :: rest =>
+    if s.hit t q localAS segs then
+      if s.disp ≠ 0 then ([true], s.modify confed segs, s.disp)
+      else
+        let r := chainEval t q localAS confed (s.modify confed segs) rest
+        (true :: r.1, r.2.1, r.2.2)
+    else
+      let r := chainEval t q localAS confed segs rest
+      (false :: r.1, r.2.1, r.2.2)
+
 /-! ### RTR client and manager -/
 
 /-- rpki.go `before`: `int32(a-b) < 0` on uint32 -/
